@@ -737,17 +737,17 @@ func (s *Server) cmdSET(msg *Message) (resp.Value, commandDetails, error) {
 			if i+1 < len(args) {
 				// probe for possible z coordinate
 				var err error
-				z, err = strconv.ParseFloat(args[i+1], 64)
+				z, err = parseFiniteFloat(args[i+1])
 				if err == nil {
 					hasZ = true
 					i++
 				}
 			}
-			y, err := strconv.ParseFloat(slat, 64)
+			y, err := parseFiniteFloat(slat)
 			if err != nil {
 				return retwerr(errInvalidArgument(slat))
 			}
-			x, err := strconv.ParseFloat(slon, 64)
+			x, err := parseFiniteFloat(slon)
 			if err != nil {
 				return retwerr(errInvalidArgument(slon))
 			}
@@ -763,7 +763,7 @@ func (s *Server) cmdSET(msg *Message) (resp.Value, commandDetails, error) {
 			var vals [4]float64
 			for j := 0; j < 4; j++ {
 				var err error
-				vals[j], err = strconv.ParseFloat(args[i+1+j], 64)
+				vals[j], err = parseFiniteFloat(args[i+1+j])
 				if err != nil {
 					return retwerr(errInvalidArgument(args[i+1+j]))
 				}
